@@ -19,7 +19,9 @@ pub struct StateNaive {
     #[serde(rename = "_type")]
     typ: String,
     name: String,
+    #[serde(serialize_with = "crate::models::serialize_artifacts")]
     materials: BTreeMap<VirtualTargetPath, TargetDescription>,
+    #[serde(serialize_with = "crate::models::serialize_artifacts")]
     products: BTreeMap<VirtualTargetPath, TargetDescription>,
     env: Option<BTreeMap<String, String>>,
     command: Command,
